@@ -1078,7 +1078,9 @@ func failedRenew(idx int, kind string) func(w *worker) {
 		w.ensure(2)
 		old := w.cid
 		newc := old + 1
-		w.s.AddContract(newc, types.FileContractID(w.s.CID(old)).V2RenewalID())
+		// NOTE: the id the renewal would get is never looked up on the host: the reference contractor's
+		// LockV2Contract marks an id as locked before it checks that the contract exists, so probing a
+		// future id would leave the contract created later under it locked for good
 		k := w.begin(fmt.Sprintf("failed-%s%d", kind, idx), old, newc)
 		k.run("fund", variants()[0], false)
 		k.observe()
@@ -1118,8 +1120,10 @@ func failedRenew(idx int, kind string) func(w *worker) {
 			k.c.Oracle("failed-renew-changed-contract:"+kind, "after the rejected %s the old contract is revisable=%v renewed=%v, revision %d -> %d", kind, after.Revisable, after.Renewed,
 				before.Revision.RevisionNumber, after.Revision.RevisionNumber)
 		}
-		if _, err := w.rig.HostState(w.s.CID(newc)); err == nil {
-			k.c.Oracle("failed-renew-left-contract:"+kind, "after the rejected %s the host holds a renewal contract that can never be confirmed", kind)
+		for _, c := range calls {
+			if (c.Kind == "renew" || c.Kind == "add") && c.Err == nil {
+				k.c.Oracle("failed-renew-left-contract:"+kind, "after the rejected %s the host holds a renewal contract that can never be confirmed", kind)
+			}
 		}
 		k.observe()
 		// the next exchange: latest revision and honest revisions of the old contract
@@ -1133,6 +1137,84 @@ func failedRenew(idx int, kind string) func(w *worker) {
 			k.observe()
 		}
 		k.done(true, "kind:failed-"+kind)
+	}
+}
+
+
+// renewLimit: a host with a small MaxContractDuration and renewals sized exactly around it.  core's
+// Validate measures ProofHeight + ProofWindow - Prices.TipHeight against the setting: one block more
+// is out of range and must change nothing; exactly the limit is served.
+func renewLimit(idx int) func(w *worker) {
+	return func(w *worker) {
+		w.ensure(2)
+		old := w.cid
+		newc := old + 1
+		k := w.begin(fmt.Sprintf("renew-limit%d", idx), old, newc)
+		ctx := context.Background()
+		before := k.state(old)
+		tip := w.rig.CM.Tip().Height
+		edge := before.Revision.ProofHeight + 5 // the last proof height the limit admits
+		saved := w.rig.SR.RHP4Settings()
+		small := saved
+		small.MaxContractDuration = edge + proto4.ProofWindow - tip
+		w.rig.SR.Update(small)
+		defer w.rig.SR.Update(saved)
+		settings, err := rhp4.RPCSettings(ctx, w.rig.T)
+		if err != nil {
+			k.c.Oracle("harness-setup", "settings: %v", err)
+			k.done(false)
+			return
+		}
+		renew := func(proofHeight uint64) (rhp4.RPCRenewContractResult, error, []rhpx.Call) {
+			w.rig.Rec.Take()
+			fs := &rhpx.FundSigner{W: w.rig.W, PK: rhpx.Key(rhpx.RenterKeyID)}
+			r, err := rhp4.RPCRenewContract(ctx, w.rig.T, w.rig.CM, fs, w.rig.CM.TipState(), settings.Prices, settings.WalletAddress, before.Revision, proto4.RPCRenewContractParams{
+				ContractID: w.s.CID(old), Allowance: types.Siacoins(100000), Collateral: types.Siacoins(200000), ProofHeight: proofHeight})
+			w.rig.T.WaitIdle()
+			return r, err, w.rig.Rec.Take()
+		}
+		for _, over := range []uint64{1, 2, proto4.ProofWindow - 1, proto4.ProofWindow, proto4.ProofWindow + 1, 100000} {
+			_, err, calls := renew(edge + over)
+			name := fmt.Sprintf("duration-limit+%d", over)
+			if err == nil {
+				k.c.Oracle("out-of-range-renewal-accepted:"+name, "a renewal lasting %d blocks was accepted by a host whose MaxContractDuration is %d", edge+over+proto4.ProofWindow-tip, small.MaxContractDuration)
+			}
+			for _, c := range calls {
+				if c.Kind == "renew" && c.Err == nil {
+					k.c.Oracle("out-of-range-renewal-recorded:"+name, "the contractor recorded a renewal beyond the host's maximum duration")
+				}
+			}
+			after := k.state(old)
+			if after.Revision != before.Revision || after.Renewed || !after.Revisable {
+				k.c.Oracle("out-of-range-renewal-changed-contract:"+name, "after the refused renewal the old contract is revisable=%v renewed=%v", after.Revisable, after.Renewed)
+			}
+			k.observe()
+			if err == nil {
+				k.done(true, "kind:renew-limit")
+				return
+			}
+		}
+		// exactly the limit: served
+		res, err, _ := renew(edge)
+		if err != nil {
+			k.c.Oracle("good-request-refused:renew:duration-limit", "a renewal lasting exactly MaxContractDuration was refused: %v", err)
+			k.done(true, "kind:renew-limit")
+			return
+		}
+		w.s.AddContract(newc, res.Contract.ID)
+		nst := k.state(newc)
+		k.c.Op(fmt.Sprintf("renew %d %d %s %d %d", old, newc, rhpx.Body(nst.Revision, w.cur), rhpx.KeyID(before.Revision.RenterPublicKey), rhpx.KeyID(before.Revision.HostPublicKey)), "ok []")
+		if _, err := w.rig.CM.AddV2PoolTransactions(res.RenewalSet.Basis, res.RenewalSet.Transactions); err != nil {
+			k.c.Oracle("renewal-set-invalid", "renewal set rejected by the pool: %v", err)
+		}
+		w.rig.Mine(1)
+		tl, ti := w.s.TipLine()
+		k.c.Op(tl, ti)
+		k.observe()
+		w.cid = newc
+		w.sync(newc)
+		k.run("fund", variants()[0], false)
+		k.done(true, "kind:renew-limit")
 	}
 }
 
@@ -1258,6 +1340,9 @@ func Run(r *vh.Run) {
 		}
 		if i%100 == 13 {
 			jobs = append(jobs, failedRenew(i, []string{"renew", "refresh-full", "refresh-partial"}[(i/100)%3]))
+			if (i/100)%4 == 1 {
+				jobs = append(jobs, renewLimit(i))
+			}
 			rk := []string{"refresh-full", "renew", "refresh-partial"}[(i/100)%3]
 			jobs = append(jobs, renewal(i, rk, (i/100)%2 == 0))
 		}
